@@ -239,4 +239,19 @@ theorem c03_every_history_lines (s : Src) (hk : s.NoCR) (hn : s.ids.Nodup) (σ :
   obtain ⟨r2, b1, b2⟩ := history_map_lname s hk hn σ hc h hs hsmall1 hsmall2 calls k2 hc2
   exact ⟨r1, r2, a1, b1, fun sm hsm L hL => by rw [b2 sm hsm L hL, a2 L]⟩
 
+/-! ## the boundary: `map()` of a SourceMapSource is its attached map, verbatim (known finding K1) -/
+
+/-- `SourceMapSource("a", "f")` with an attached map that has a source but no segment -/
+def k1Witness : Src := .sms [97] [102] ⟨[], [[120]], [], [], none, none, none⟩ none none false
+
+/-- **"`map()` returns no map exactly when no streamed chunk is mapped" fails for a SourceMapSource without inner map** (known
+finding K1; the same witness is replayed against the crate on every run: `corpus/C03/k1.case`): `map()` returns the attached map
+although the stream delivers one chunk, unmapped.  The theorems of C03 are therefore stated for `get_map` (every other node kind's
+`map()`), not for this shortcut. -/
+theorem c03_k1_witness :
+    (k1Witness.map ⟨true, false⟩ []).1.isSome = true
+    ∧ chunkMs (k1Witness.stream ⟨true, false⟩ []).1.evs = [⟨1, 0, none⟩]
+    ∧ (getMap k1Witness ⟨true, false⟩ []).1 = none := by
+  refine ⟨by decide +kernel, by decide +kernel, by decide +kernel⟩
+
 end Rs
